@@ -60,6 +60,7 @@ class Session(BaseSession):
         self._data_connection = None
         self._listing_type = None
         self._session_state = SessionState.ready
+        self._control_begun = False
 
         self.event_dispatcher.register(self.Event.begin_control)
         self.event_dispatcher.register(self.Event.control_send_data)
@@ -219,6 +220,7 @@ class Session(BaseSession):
 
         connection_reused = not connection_closed
         self.event_dispatcher.notify(self.Event.begin_control, request, connection_reused=connection_reused)
+        self._control_begun = True
 
         if connection_closed:
             yield from self._commander.read_welcome_message()
@@ -404,7 +406,8 @@ class Session(BaseSession):
         super().recycle()
         self._close_data_connection()
 
-        if self._control_connection:
+        if self._control_connection and self._control_begun:
+            # Not when connecting failed: begin_control was never sent.
             self.event_dispatcher.notify(
                 self.Event.end_control, self._response,
                 connection_closed=self._control_connection.closed()
